@@ -170,7 +170,8 @@ def cases(tier: str) -> List[Dict[str, Any]]:
             for (f1, f2) in pairs:
                 out.append(dict(cls="name", graph=gname, core=False, items=[(k1, "DUP", 2001, f1), (k2, "DUP", 2002, f2)]))
         # message id clashes
-        forms = ("message", "signal", "rint", "rdash", "rto")
+        # (copy / copymsg: a message that takes its fields from a struct / from another message - 'fields: NAME')
+        forms = ("message", "signal", "rint", "rdash", "rto", "copy", "copymsg")
         for (a, b) in itertools.product(forms, repeat=2):
             for (f1, f2) in pairs:
                 if f1 == f2 and a.startswith("r") and b.startswith("r") and tier == "quick" and gname not in ("single", "diamond"):
@@ -225,6 +226,9 @@ def cases(tier: str) -> List[Dict[str, Any]]:
                           ("modid", 9), ("modid", 100), ("modid", 150), ("modid", 199), ("modid-ok", 10), ("modid-ok", 99), ("modid-ok", 200),
                           ("hostid", 0), ("hostid", 32768), ("hostid", -5), ("hostid-ok", 1), ("hostid-ok", 32766)):
             out.append(dict(cls="range", graph="single", core=core_on, what=what, val=val))
+            if what.startswith("msgid"):
+                out.append(dict(cls="range", graph="single", core=core_on, what=what, val=val, form="copy"))
+                out.append(dict(cls="range", graph="single", core=core_on, what=what, val=val, form="message"))
     # with the core definitions: clashes against core ids / names, representatives of every class
     for gname in ("single", "diamond", "subdir", "samestring") if tier == "quick" else graphs:
         files = reachable(GRAPHS[gname])
@@ -259,6 +263,11 @@ def build(case) -> Tuple[Files, str, Optional[Dict[str, Any]]]:
             nm = f"MSG{i}"
             if form in ("message", "signal"):
                 fl.add(f, "message_defs", item_lines(form, nm, 2500))
+            elif form == "copy":
+                fl.add(f, "struct_defs", item_lines("struct", f"SRC_ST{i}", 0))
+                fl.add(f, "message_defs", [f"  {nm}:", "    id: 2500", f"    fields: SRC_ST{i}"])
+            elif form == "copymsg":
+                fl.add(f, "message_defs", item_lines("message", f"SRC_MS{i}", 2590 + i) + [f"  {nm}:", "    id: 2500", f"    fields: SRC_MS{i}"])
             elif form == "rint":
                 fl.add_reserved(f, "2500")
             elif form == "rdash":
@@ -349,7 +358,13 @@ def build(case) -> Tuple[Files, str, Optional[Dict[str, Any]]]:
         ok = what.endswith("-ok")
         base = what.replace("-ok", "")
         if base == "msgid":
-            fl.add("root.yaml", "message_defs", item_lines("signal", "EDGE", val))
+            if case.get("form") == "copy":
+                fl.add("root.yaml", "struct_defs", item_lines("struct", "SRC_ST", 0))
+                fl.add("root.yaml", "message_defs", ["  EDGE:", f"    id: {val}", "    fields: SRC_ST"])
+            elif case.get("form") == "message":
+                fl.add("root.yaml", "message_defs", item_lines("message", "EDGE", val))
+            else:
+                fl.add("root.yaml", "message_defs", item_lines("signal", "EDGE", val))
             exp = "ok" if ok else "RTMASyntaxError"
         elif base == "modid":
             fl.add("root.yaml", "module_ids", [f"  EDGE: {val}"])
